@@ -241,10 +241,12 @@ def body(run: Run, replay):
                 for c in percents:
                     ks = [float(fn(p / 100, c / 100, n)) for n in sizes + [10 ** 6, 10 ** 8]]
                     run.case((name, "limit", p, c), part="k-factor laws")
-                    if abs(ks[-2] - z) > 5e-3 * (1 + z) or abs(ks[-1] - z) > 5e-4 * (1 + z) or abs(ks[-1] - z) > abs(ks[-2] - z) + 1e-12:
+                    if abs(ks[-2] - z) > 5e-3 * (1 + abs(z)) or abs(ks[-1] - z) > 5e-4 * (1 + abs(z)) or abs(ks[-1] - z) > abs(ks[-2] - z) + 1e-12:
                         run.violation("%s(%g, %g, n) does not converge to the normal quantile %.9g (n=1e6: %.9g, n=1e8: %.9g)" % (name, p / 100, c / 100, z, ks[-2], ks[-1]),
                                       {"p": p, "c": c}, {"fn": name})
-                    if c >= 50 and not all(k >= z - 1e-9 for k in ks):
+                    # "from above when c >= 50 %": at exactly 50 % the factor is the median of the scaled non-central t, z_p (1 + 1/(4 nu) + ...),
+                    # which lies BELOW z_p when z_p < 0 - the clause is checked where it is a mathematical fact (c > 50 %, or p >= 50 %)
+                    if (c > 50 or (c == 50 and z >= 0)) and not all(k >= z - 1e-9 for k in ks):
                         run.violation("%s(%g, %g, n) approaches the normal quantile from below although c >= 0.5" % (name, p / 100, c / 100), {"p": p, "c": c}, {"fn": name})
             P = np.array(percents)[:, None] / 100
             N = np.array(sizes)[None, :]
